@@ -6,6 +6,7 @@ import (
 	"bytes"
 
 	"github.com/jamf/regatta/regattapb"
+	"github.com/jamf/regatta/util/iter"
 )
 
 type commandDelete struct {
@@ -41,12 +42,15 @@ func handleDelete(ctx *updateContext, del *regattapb.RequestOp_DeleteRange) (*re
 			if err := ctx.EnsureIndexed(); err != nil {
 				return nil, err
 			}
-			rng, err := rangeLookup(ctx.batch, &regattapb.RequestOp_Range{Key: del.Key, RangeEnd: del.RangeEnd, CountOnly: del.Count && !del.PrevKv})
+			it, err := iterate(ctx.batch, &regattapb.RequestOp_Range{Key: del.Key, RangeEnd: del.RangeEnd, CountOnly: del.Count && !del.PrevKv})
 			if err != nil {
 				return nil, err
 			}
-			resp.Deleted = rng.Count
-			resp.PrevKvs = rng.Kvs
+			// The range is read in size limited chunks, all of them have to be accounted for.
+			iter.Consume(it, func(rng *regattapb.ResponseOp_Range) {
+				resp.Deleted += rng.Count
+				resp.PrevKvs = append(resp.PrevKvs, rng.Kvs...)
+			})
 		}
 
 		var end []byte
